@@ -9,7 +9,9 @@
  *   K5 tied, non-representable values (grids of 0.1, 1/3, 1e-3)
  *   K7 several fits in one process, outputs that already hold other data (driver)
  *   K8 responses that are exact linear functions of X with an exact fit before nlv = rank (orthogonal predictor groups; a response
- *      proportional to one predictor of an orthogonal two-level design: the residual becomes exactly zero), duplicated / mirrored /
+ *      proportional to one predictor of an orthogonal two-level design: the residual becomes exactly zero; the same design in other units:
+ *      the residual is rounding residue; a response with an interaction that is not a predictor: a large residual exactly orthogonal to X),
+ *      duplicated / mirrored /
  *      linearly dependent responses, duplicate objects
  * Everything here is computed from the input alone; what the numbers mean (tolerances, class tags) is decided in spec/PlsLs.tla.
  */
@@ -129,9 +131,17 @@ static void c4_orthogonal_groups(pc_case *c, vrng *r, int groups){
 /* K8: two-level orthogonal design (columns of a Hadamard matrix of order 8 / 16 without the constant one: +-1, centred, mutually
  * orthogonal) and a response proportional to ONE predictor with small integer coefficients: every step of the first latent variable
  * is exact in binary floating point, the residual of the response is exactly zero after it */
-static void c4_two_level(pc_case *c, vrng *r){
+static void c4_two_level(pc_case *c, vrng *r, int lack_of_fit){
   int n = c->n, p = c->p, m = c->nnew, N = n + m;
-  int j1 = (int)vr_int(r, 0, p - 1);
+  int j1 = (int)vr_int(r, 0, p - 1), j2 = -1;
+  if(lack_of_fit){
+    /* an interaction x_j1 * x_j2 that is not a predictor: column index (j1+1) xor (j2+1) lies beyond the p predictors (and below n), so it is
+     * orthogonal to every predictor and to the constant */
+    for(int att = 0; att < 200 && j2 < 0; att++){
+      int a = (int)vr_int(r, 0, p - 1), b = (int)vr_int(r, 0, p - 1), z = (a + 1) ^ (b + 1);
+      if(a != b && z > p && z < n){ j1 = a; j2 = b; }
+    }
+  }
   double slope = (double)(vr_int(r, 0, 1) ? 1 : -1) * (double)(1 << vr_int(r, 0, 2)), icpt = (double)vr_int(r, -4, 4);
   for(int i = 0; i < N; i++){
     for(int j = 0; j < p; j++){
@@ -141,7 +151,14 @@ static void c4_two_level(pc_case *c, vrng *r){
       if(i < n) c->X->data[i][j] = v; else c->Xn->data[i - n][j] = v;
     }
     double x1 = i < n ? c->X->data[i][j1] : c->Xn->data[i - n][j1];
-    for(int k = 0; k < c->ny; k++){ double v = icpt + (k == 0 ? slope : -2.0 * slope) * x1; if(i < n) c->Y->data[i][k] = v; else c->Yn->data[i - n][k] = v; }
+    double x2 = j2 < 0 ? 0.0 : (i < n ? c->X->data[i][j2] : c->Xn->data[i - n][j2]);
+    for(int k = 0; k < c->ny; k++){
+      double v = icpt + (k == 0 ? slope : -2.0 * slope) * x1 + 1.5 * slope * x1 * x2;
+      /* lack_of_fit 2 (two responses): the response with the LARGEST variance is the pure interaction (no covariance with any predictor: the
+       * start vector of the NIPALS iteration), the other one is proportional to a predictor */
+      if(lack_of_fit == 2) v = icpt + (k == 0 ? 3.0 * slope * x1 * x2 : slope * x1);
+      if(i < n) c->Y->data[i][k] = v; else c->Yn->data[i - n][k] = v;
+    }
   }
 }
 #endif
